@@ -125,13 +125,38 @@ static void checkLookup(TreeT& tree, const Idx& space, const long leafIdx[NPART]
     irsym_assert(cellOk, Q_CELL); irsym_assert(cellPos, Q_CELL_POS); irsym_assert(leafOk, Q_LEAF); irsym_assert(leafPos, Q_LEAF_POS);
 }
 
+// C16 on deep trees: the query set is every existing cell, its two index neighbours, -1, 0 and the upper bound of the level
+template <class TreeT>
+static void checkLookupSparse(TreeT& tree, const Idx& space, const long leafIdx[NPART]){
+    bool cellOk = true, cellPos = true, leafOk = true;
+    for(long level = 0; level < HEIGHT; ++level){
+        const LevelSet ls = levelSet(leafIdx, level);
+        const long upper = space.getUpperBound(level);
+        long qs[3 * NPART + 3]; long nq = 0;
+        for(long i = 0; i < ls.n; ++i){ qs[nq++] = ls.idx[i]; qs[nq++] = ls.idx[i] - 1; qs[nq++] = ls.idx[i] + 1; }
+        qs[nq++] = -1; qs[nq++] = 0; qs[nq++] = upper;
+        for(long k = 0; k < nq; ++k){
+            const long q = qs[k];
+            bool expect = false; for(long i = 0; i < ls.n; ++i) expect = expect || ls.idx[i] == q;
+            auto r = tree.findGroupWithCell(level, q);
+            cellOk = cellOk && (bool(r) == expect);
+            if(r) cellPos = cellPos && r->first.get().getCellSpacialIndex(r->second) == q;
+            if(level == HEIGHT - 1){
+                auto l = tree.findGroupWithLeaf(q);
+                leafOk = leafOk && (bool(l) == expect) && (!l || l->first.get().getLeafSpacialIndex(l->second) == q);
+            }
+        }
+    }
+    irsym_assert(cellOk, Q_CELL); irsym_assert(cellPos, Q_CELL_POS); irsym_assert(leafOk, Q_LEAF);
+}
+
 // C17: bulk export under the original index
 template <class TreeT>
 static void checkExport(TreeT& tree, const U expectRhs[NPART][NRHS + 1], bool checkRhs){
     auto data = tree.getAllParticlesData();
     bool dok = true;
     for(long p = 0; p < NPART; ++p) for(int v = 0; v < DIM + NEXTRA; ++v){
-        const Real expect = static_cast<Real>(static_cast<DataT>(gP.pos[p][v]));      // stored as DataT, exported as RealType
+        const Real expect = static_cast<Real>(static_cast<DataT>(gP.pos[p][v]));      // stored as DataT (converted once from the container type), exported as RealType
         dok = dok && std::memcmp(&data[p][v], &expect, sizeof(Real)) == 0;
     }
     irsym_assert(dok, X_DATA);
